@@ -43,10 +43,13 @@ def _gen_thread(rw: Any, tid: int, cfg: Dict[str, Any], shape_seed: Optional[int
         host: List[str] = []
         if rw.random() < cfg["host_share"]:
             host = ["hf_add1"]
+        if cfg["shadow_size"] and rw.random() < 0.5:
+            host = host + ["size"]  # this thread overrides the built-in size(); others use it
         bound = bool(host) and rw.random() < 0.85  # sometimes the name is called but not bound
         text = gen.gen_expr(er, decls, salt=text_salt, depth=er.choice([1, 2, 2, 3, 3, 4]),
-                            invalid_share=0.02, host=host, deep_share=cfg["deep_share"],
-                            features=cfg["features"])
+                            invalid_share=0.02, host=[h for h in host if h != "size"],
+                            deep_share=cfg["deep_share"],
+                            features=(cfg["features"] + ["size"]) if cfg["shadow_size"] else cfg["features"])
         ops.append({"op": "K", "id": p, "env": 0, "text": text, "host": host})
         fspec = None
         if host and bound:
@@ -83,6 +86,7 @@ def generate(seed: int, tier: str = "quick") -> Dict[str, Any]:
         "same_env": gen.gen_env(rc, "C") if rc.random() < 0.6 else None,
         "host_share": rc.choice([0.0, 0.0, 0.3, 0.8]),
         "host_variants": rc.random() < 0.6,
+        "shadow_size": rc.random() < 0.15,
         "pre": rc.choice([None, None, "I", "C", "same"]),
         "deep_share": rc.choice([0.0, 0.0, 0.0, 0.3, 0.6]),
         # constructs featured in every thread's expressions of this workload (swarm testing)
